@@ -508,7 +508,15 @@ func (c *sseClientConn) Write(ctx context.Context, msg jsonrpc.Message) error {
 	}
 	defer resp.Body.Close()
 	if resp.StatusCode < 200 || resp.StatusCode >= 300 {
-		return fmt.Errorf("failed to write: %s", resp.Status)
+		err := fmt.Errorf("failed to write: %s", resp.Status)
+		if r, ok := msg.(*jsonrpc.Request); ok && r.Method == methodDiscover && resp.StatusCode >= 400 && resp.StatusCode < 500 {
+			// A server that predates server/discover refuses it at the HTTP
+			// level. That rejects this one request, it does not break the
+			// connection: the client falls back to the initialize handshake
+			// (as the streamable client does).
+			return fmt.Errorf("%w: %w", err, jsonrpc2.ErrRejected)
+		}
+		return err
 	}
 	return nil
 }
